@@ -758,6 +758,665 @@ Proof.
   pose proof (fast_read_from_wire e s fs wfs Henv Hs Hwf Hd) as H. rewrite Hr in H. apply H.
 Qed.
 
+(* ------------------------------------------------------------------ the fuel never runs out *)
+
+Lemma FOk_inj {A} (a b : A) : FOk a = FOk b -> a = b.
+Proof. congruence. Qed.
+
+Lemma adv_length n (rem : bytes) : (length (adv n rem) <= length rem)%nat.
+Proof. unfold adv. rewrite skipn_length. lia. Qed.
+
+Lemma adv_shrinks n b (rem : bytes) : 1 <= n -> (length (adv n (b :: rem)) <= length rem)%nat.
+Proof.
+  intro H. unfold adv. rewrite skipn_length. cbn [length]. assert (1 <= Z.to_nat n)%nat by lia. lia.
+Qed.
+
+Lemma skipstr_pos rem k : skipstr rem = FOk k -> 1 <= k.
+Proof.
+  unfold skipstr. cbv zeta. destruct (4 <=? lenZ rem); [|discriminate].
+  destruct (Z.ltb_spec (i32_0 rem) 0); [discriminate|].
+  destruct (4 + i32_0 rem <=? lenZ rem); [|discriminate]. intro Hk.
+  assert (k = 4 + i32_0 rem) by congruence. lia.
+Qed.
+
+Lemma skipstr_nofuel rem : skipstr rem <> FErr FFuel.
+Proof.
+  unfold skipstr. cbv zeta. destruct (4 <=? lenZ rem); [|discriminate].
+  destruct (i32_0 rem <? 0); [discriminate|]. destruct (4 + i32_0 rem <=? lenZ rem); discriminate.
+Qed.
+
+Lemma type_size_pos t : 0 < type_size t -> 1 <= type_size t.
+Proof. lia. Qed.
+
+Definition sk_good (sk : Z -> bytes -> fres Z) : Prop :=
+  (forall t bs, sk t bs <> FErr FFuel) /\ (forall t bs k, sk t bs = FOk k -> 1 <= k).
+
+Lemma skip_elem_good sk rem t : sk_good sk ->
+  skip_elem sk rem t <> FErr FFuel /\ (forall k, skip_elem sk rem t = FOk k -> 1 <= k).
+Proof.
+  intros [H1 H2]. unfold skip_elem. destruct (Z.ltb_spec 0 (type_size t)).
+  - split; [discriminate|]. intros k [= <-]. lia.
+  - destruct (t =? 11).
+    + split; [apply skipstr_nofuel | apply skipstr_pos].
+    + split; [apply H1 | apply H2].
+Qed.
+
+Lemma skip_list_loop_good sk : sk_good sk -> forall fuel vt j acc rem,
+  (length rem < fuel)%nat -> 1 <= acc ->
+  skip_list_loop sk fuel vt j acc rem <> FErr FFuel /\
+  (forall k, skip_list_loop sk fuel vt j acc rem = FOk k -> 1 <= k).
+Proof.
+  intros Hsk. induction fuel as [|fuel IH]; intros vt j acc rem Hf Hacc; [lia|].
+  cbn [skip_list_loop]. destruct (j <=? 0); [split; [discriminate | intros k [= <-]; lia]|].
+  destruct rem as [|b rem]; [split; discriminate|].
+  destruct (skip_elem_good sk (b :: rem) vt Hsk) as [E1 E2].
+  destruct (skip_elem sk (b :: rem) vt) as [vi|x] eqn:E.
+  - specialize (E2 vi eq_refl). apply IH; [|lia]. pose proof (adv_shrinks vi b rem E2). cbn [length] in Hf. lia.
+  - split; [intro H; apply E1; exact H | discriminate].
+Qed.
+
+Lemma skip_map_loop_good sk : sk_good sk -> forall fuel kt vt j acc rem,
+  (length rem < fuel)%nat -> 1 <= acc ->
+  skip_map_loop sk fuel kt vt j acc rem <> FErr FFuel /\
+  (forall k, skip_map_loop sk fuel kt vt j acc rem = FOk k -> 1 <= k).
+Proof.
+  intros Hsk. induction fuel as [|fuel IH]; intros kt vt j acc rem Hf Hacc; [lia|].
+  cbn [skip_map_loop]. destruct (j <=? 0); [split; [discriminate | intros k [= <-]; lia]|].
+  destruct rem as [|b rem]; [split; discriminate|].
+  destruct (skip_elem_good sk (b :: rem) kt Hsk) as [E1 E2].
+  destruct (skip_elem sk (b :: rem) kt) as [ki|x] eqn:E; [|split; [intro H; apply E1; exact H | discriminate]].
+  specialize (E2 ki eq_refl). pose proof (adv_shrinks ki b rem E2) as Hl1.
+  destruct (adv ki (b :: rem)) as [|b1 rem1] eqn:Ea; [split; discriminate|].
+  destruct (skip_elem_good sk (b1 :: rem1) vt Hsk) as [F1 F2].
+  destruct (skip_elem sk (b1 :: rem1) vt) as [vi|x] eqn:F; [|split; [intro H; apply F1; exact H | discriminate]].
+  specialize (F2 vi eq_refl). apply IH; [|lia].
+  pose proof (adv_shrinks vi b1 rem1 F2). cbn [length] in *. lia.
+Qed.
+
+Lemma skip_struct_loop_good sk : sk_good sk -> forall fuel acc rem,
+  (length rem < fuel)%nat -> 0 <= acc ->
+  skip_struct_loop sk fuel acc rem <> FErr FFuel /\
+  (forall k, skip_struct_loop sk fuel acc rem = FOk k -> 1 <= k).
+Proof.
+  intros Hsk. induction fuel as [|fuel IH]; intros acc rem Hf Hacc; [lia|].
+  cbn [skip_struct_loop]. destruct rem as [|tb r0]; [split; discriminate|].
+  destruct (Z_of_byte tb =? 0); [split; [discriminate | intros k [= <-]; lia]|].
+  pose proof (adv_length 2 r0) as Hl0.
+  destruct (adv 2 r0) as [|b1 r1] eqn:Ea; [split; discriminate|].
+  destruct (neg_type (Z_of_byte tb)); [split; discriminate|].
+  destruct (skip_elem_good sk (b1 :: r1) (Z_of_byte tb) Hsk) as [F1 F2].
+  destruct (skip_elem sk (b1 :: r1) (Z_of_byte tb)) as [fi|x] eqn:F; [|split; [intro H; apply F1; exact H | discriminate]].
+  specialize (F2 fi eq_refl). apply IH; [|lia].
+  pose proof (adv_shrinks fi b1 r1 F2). cbn [length] in *. lia.
+Qed.
+
+Lemma fskip_good d : sk_good (fskip d).
+Proof.
+  induction d as [|d IH].
+  - split; [intros t bs; discriminate | intros t bs k; discriminate].
+  - assert (G : forall t bs, fskip (S d) t bs <> FErr FFuel /\ (forall k, fskip (S d) t bs = FOk k -> 1 <= k)).
+    { intros t bs. cbn [fskip].
+      destruct (neg_type t); [split; discriminate|].
+      destruct (Z.ltb_spec 0 (type_size t)).
+      { destruct (lenZ bs <? type_size t); [split; discriminate|]. split; [discriminate|]. intros k [= <-]. lia. }
+      destruct (t =? 11); [split; [apply skipstr_nofuel | apply skipstr_pos]|].
+      destruct (t =? 13).
+      { destruct (lenZ bs <? 6); [split; discriminate|].
+        destruct (Z.ltb_spec (i32_0 (adv 2 bs)) 0); [split; discriminate|].
+        destruct (neg_type (byte0 bs) || neg_type (byte0 (adv 1 bs))); [split; discriminate|].
+        destruct ((0 <? type_size (byte0 bs)) && (0 <? type_size (byte0 (adv 1 bs)))) eqn:Eb.
+        - apply andb_true_iff in Eb. destruct Eb as [Eb1 Eb2]. apply Z.ltb_lt in Eb1, Eb2.
+          match goal with |- context [lenZ bs <? ?x] => destruct (lenZ bs <? x) end; [split; discriminate|].
+          split; [discriminate|]. intros k Hk. apply FOk_inj in Hk. subst k. nia.
+        - apply skip_map_loop_good; [exact IH | | lia]. pose proof (adv_length 6 bs). lia. }
+      destruct ((t =? 15) || (t =? 14)).
+      { destruct (lenZ bs <? 5); [split; discriminate|].
+        destruct (Z.ltb_spec (i32_0 (adv 1 bs)) 0); [split; discriminate|].
+        destruct (neg_type (byte0 bs)); [split; discriminate|].
+        destruct (Z.ltb_spec 0 (type_size (byte0 bs))).
+        - match goal with |- context [lenZ bs <? ?x] => destruct (lenZ bs <? x) end; [split; discriminate|].
+          split; [discriminate|]. intros k Hk. apply FOk_inj in Hk. subst k. nia.
+        - apply skip_list_loop_good; [exact IH | | lia]. pose proof (adv_length 5 bs). lia. }
+      destruct (t =? 12); [|split; discriminate].
+      apply skip_struct_loop_good; [exact IH | lia | lia]. }
+    split; [intros t bs; apply G | intros t bs; apply G].
+Qed.
+
+Lemma fskip_top_nofuel t bs : fskip_top t bs <> FErr FFuel.
+Proof. unfold fskip_top. destruct bs; [discriminate|]. apply fskip_good. Qed.
+
+(* the readers: a successful read consumes at least one byte *)
+Definition consumes {A} (p : bytes -> fres (A * bytes)) : Prop :=
+  forall bs a r, p bs = FOk (a, r) -> (length r < length bs)%nat.
+
+Lemma rd_s_consumes n : (0 < n)%nat -> consumes (rd_s n).
+Proof.
+  intros Hn bs a r. unfold rd_s. destruct (get_s n bs) as [[z r0]|] eqn:E; [|discriminate].
+  intros [= <- <-]. destruct (get_s_split _ _ _ _ E) as (used & -> & Hl & _). rewrite app_length. lia.
+Qed.
+Lemma rd_u_consumes n : (0 < n)%nat -> consumes (rd_u n).
+Proof.
+  intros Hn bs a r. unfold rd_u. destruct (get_be n bs) as [[z r0]|] eqn:E; [|discriminate].
+  intros [= <- <-]. destruct (get_be_split _ _ _ _ E) as (used & -> & Hl & _). rewrite app_length. lia.
+Qed.
+Lemma rd_str_consumes : consumes rd_str.
+Proof.
+  intros bs a r. unfold rd_str. destruct (get_s 4 bs) as [[n r0]|] eqn:E; [|discriminate].
+  destruct (n <? 0); [discriminate|]. destruct (lenZ r0 <? n); [discriminate|].
+  intros [= <- <-]. destruct (get_s_split _ _ _ _ E) as (used & -> & Hl & _). rewrite app_length, skipn_length. lia.
+Qed.
+Lemma rd_list_begin_consumes : consumes rd_list_begin.
+Proof.
+  intros bs a r. unfold rd_list_begin. destruct bs as [|b bs]; [discriminate|].
+  destruct (get_s 4 bs) as [[n r0]|] eqn:E; [|discriminate]. destruct (n <? 0); [discriminate|].
+  intros [= <- <-]. destruct (get_s_split _ _ _ _ E) as (used & -> & Hl & _). cbn [length]. rewrite app_length. lia.
+Qed.
+Lemma rd_map_begin_consumes : consumes rd_map_begin.
+Proof.
+  intros bs a r. unfold rd_map_begin. destruct bs as [|b [|b2 bs]]; try discriminate.
+  destruct (get_s 4 bs) as [[n r0]|] eqn:E; [|discriminate]. destruct (n <? 0); [discriminate|].
+  intros [= <- <-]. destruct (get_s_split _ _ _ _ E) as (used & -> & Hl & _). cbn [length]. rewrite app_length. lia.
+Qed.
+
+Lemma frep_shrinks {A} (p : bytes -> fres (A * bytes)) : consumes p -> forall fuel n bs l r,
+  frep p fuel n bs = FOk (l, r) -> (length r <= length bs)%nat.
+Proof.
+  intros Hp. induction fuel as [|fuel IH]; intros n bs l r; cbn [frep]; destruct (n <=? 0); try discriminate;
+    try (intros [= <- <-]; lia).
+  destruct (p bs) as [[a r1]|x] eqn:E; [|discriminate].
+  destruct (frep p fuel (n - 1) r1) as [[l1 r2]|x] eqn:E2; [|discriminate].
+  intros [= <- <-]. pose proof (Hp _ _ _ E). pose proof (IH _ _ _ _ E2). lia.
+Qed.
+
+Lemma fpair_consumes {A B} (p : bytes -> fres (A * bytes)) (q : bytes -> fres (B * bytes)) :
+  consumes p -> consumes q -> consumes (fpair p q).
+Proof.
+  intros Hp Hq bs a r. unfold fpair. destruct (p bs) as [[x r1]|] eqn:E1; [|discriminate].
+  destruct (q r1) as [[y r2]|] eqn:E2; [|discriminate]. intros [= <- <-].
+  pose proof (Hp _ _ _ E1). pose proof (Hq _ _ _ E2). lia.
+Qed.
+
+Lemma fr_loop_shrinks rv e s : (forall t, consumes (rv t)) -> forall fuel st bs fs r,
+  fr_loop rv e s fuel st bs = FOk (fs, r) -> (length r < length bs)%nat.
+Proof.
+  intros Hrv. induction fuel as [|fuel IH]; intros st bs fs r; cbn [fr_loop]; [discriminate|].
+  destruct bs as [|tb r0]; [discriminate|].
+  destruct (Z_of_byte tb =? 0).
+  - destruct (fast_first_missing s (snd st)); [discriminate|]. intros [= <- <-]. cbn [length]. lia.
+  - destruct (get_s 2 r0) as [[fid r1]|] eqn:E; [|discriminate].
+    destruct (get_s_split _ _ _ _ E) as (used & -> & Hl & _).
+    destruct (find_case e s fid (Z_of_byte tb)) as [f|].
+    + destruct (rv (f_ty f) r1) as [[v r2]|] eqn:E2; [|discriminate]. intro H. apply IH in H.
+      pose proof (Hrv _ _ _ _ E2). cbn [length]. rewrite app_length. lia.
+    + destruct (fskip_top (Z_of_byte tb) r1) as [n|]; [|discriminate].
+      destruct (lenZ r1 <? n); [discriminate|]. intro H. apply IH in H.
+      rewrite skipn_length in H. cbn [length]. rewrite app_length. lia.
+Qed.
+
+Lemma fr_val_consumes e : forall fuel t, consumes (fr_val fuel e t).
+Proof.
+  induction fuel as [|fuel IH]; intros t bs a r; [discriminate|]. cbn [fr_val].
+  destruct t.
+  - unfold rd_bool. destruct bs; [discriminate|]. intros [= <- <-]. cbn [length]. lia.
+  - destruct (rd_s 1 bs) as [[z r0]|] eqn:E; [|discriminate]. intros [= <- <-]. apply (rd_s_consumes 1 ltac:(lia) _ _ _ E).
+  - destruct (rd_s 2 bs) as [[z r0]|] eqn:E; [|discriminate]. intros [= <- <-]. apply (rd_s_consumes 2 ltac:(lia) _ _ _ E).
+  - destruct (rd_s 4 bs) as [[z r0]|] eqn:E; [|discriminate]. intros [= <- <-]. apply (rd_s_consumes 4 ltac:(lia) _ _ _ E).
+  - destruct (rd_s 8 bs) as [[z r0]|] eqn:E; [|discriminate]. intros [= <- <-]. apply (rd_s_consumes 8 ltac:(lia) _ _ _ E).
+  - destruct (rd_u 8 bs) as [[z r0]|] eqn:E; [|discriminate]. intros [= <- <-]. apply (rd_u_consumes 8 ltac:(lia) _ _ _ E).
+  - destruct (rd_str bs) as [[z r0]|] eqn:E; [|discriminate]. intros [= <- <-]. apply (rd_str_consumes _ _ _ E).
+  - destruct (rd_str bs) as [[z r0]|] eqn:E; [|discriminate]. intros [= <- <-]. apply (rd_str_consumes _ _ _ E).
+  - destruct (rd_s 4 bs) as [[z r0]|] eqn:E; [|discriminate]. intros [= <- <-]. apply (rd_s_consumes 4 ltac:(lia) _ _ _ E).
+  - destruct (find_struct e name) as [s|]; [|discriminate].
+    destruct (fr_loop (fr_val fuel e) e s (S (length bs)) (new_fields s, []) bs) as [[fs r0]|] eqn:E; [|discriminate].
+    intros [= <- <-]. apply (fr_loop_shrinks _ _ _ (IH) _ _ _ _ _ E).
+  - destruct (rd_list_begin bs) as [[n r0]|] eqn:E; [|discriminate].
+    destruct (frep (fr_val fuel e t) (S (length r0)) n r0) as [[l r1]|] eqn:E2; [|discriminate].
+    intros [= <- <-]. pose proof (rd_list_begin_consumes _ _ _ E). pose proof (frep_shrinks _ (IH t) _ _ _ _ _ E2). lia.
+  - destruct (rd_list_begin bs) as [[n r0]|] eqn:E; [|discriminate].
+    destruct (frep (fr_val fuel e t) (S (length r0)) n r0) as [[l r1]|] eqn:E2; [|discriminate].
+    intros [= <- <-]. pose proof (rd_list_begin_consumes _ _ _ E). pose proof (frep_shrinks _ (IH t) _ _ _ _ _ E2). lia.
+  - destruct (rd_map_begin bs) as [[n r0]|] eqn:E; [|discriminate].
+    destruct (frep (fpair (fr_val fuel e t1) (fr_val fuel e t2)) (S (length r0)) n r0) as [[l r1]|] eqn:E2; [|discriminate].
+    intros [= <- <-]. pose proof (rd_map_begin_consumes _ _ _ E).
+    pose proof (frep_shrinks _ (fpair_consumes _ _ (IH t1) (IH t2)) _ _ _ _ _ E2). lia.
+Qed.
+
+Lemma frep_nofuel {A} (p : bytes -> fres (A * bytes)) : consumes p -> forall fuel n bs,
+  (length bs < fuel)%nat -> (forall bs', (length bs' <= length bs)%nat -> p bs' <> FErr FFuel) ->
+  frep p fuel n bs <> FErr FFuel.
+Proof.
+  intros Hp. induction fuel as [|fuel IH]; intros n bs Hf Hnf; [lia|].
+  cbn [frep]. destruct (n <=? 0); [discriminate|].
+  destruct (p bs) as [[a r1]|x] eqn:E.
+  - pose proof (Hp _ _ _ E) as Hl.
+    specialize (IH (n - 1) r1 ltac:(lia) ltac:(intros bs' Hb; apply Hnf; lia)).
+    destruct (frep p fuel (n - 1) r1) as [[l r2]|y]; [discriminate|]. intro H. apply IH. congruence.
+  - intro H. apply (Hnf bs ltac:(lia)). congruence.
+Qed.
+
+Lemma fr_loop_nofuel rv e s : (forall t, consumes (rv t)) -> forall fuel st bs,
+  (length bs < fuel)%nat -> (forall t bs', (length bs' < length bs)%nat -> rv t bs' <> FErr FFuel) ->
+  fr_loop rv e s fuel st bs <> FErr FFuel.
+Proof.
+  intros Hrv. induction fuel as [|fuel IH]; intros st bs Hf Hnf; [lia|].
+  cbn [fr_loop]. destruct bs as [|tb r0]; [discriminate|].
+  destruct (Z_of_byte tb =? 0).
+  - destruct (fast_first_missing s (snd st)); discriminate.
+  - destruct (get_s 2 r0) as [[fid r1]|] eqn:E; [|discriminate].
+    destruct (get_s_split _ _ _ _ E) as (used & -> & Hl & _).
+    cbn [length] in *. rewrite app_length in *.
+    destruct (find_case e s fid (Z_of_byte tb)) as [f|].
+    + destruct (rv (f_ty f) r1) as [[v r2]|x] eqn:E2.
+      * pose proof (Hrv _ _ _ _ E2). apply IH; [lia|]. intros t bs' Hb. apply Hnf. lia.
+      * intro H. apply (Hnf (f_ty f) r1 ltac:(lia)). congruence.
+    + pose proof (fskip_top_nofuel (Z_of_byte tb) r1) as Hs.
+      destruct (fskip_top (Z_of_byte tb) r1) as [n|x]; [|congruence].
+      destruct (lenZ r1 <? n); [discriminate|].
+      apply IH; [rewrite skipn_length; lia|]. intros t bs' Hb. rewrite skipn_length in Hb. apply Hnf. lia.
+Qed.
+
+Lemma rd_s_nofuel n bs : match rd_s n bs with FErr FFuel => False | _ => True end.
+Proof. unfold rd_s. destruct (get_s n bs) as [[? ?]|]; exact I. Qed.
+
+Lemma fr_val_nofuel e : forall fuel t bs, (length bs < fuel)%nat -> fr_val fuel e t bs <> FErr FFuel.
+Proof.
+  induction fuel as [|fuel IH]; intros t bs Hf; [lia|]. cbn [fr_val].
+  destruct t.
+  - unfold rd_bool. destruct bs; discriminate.
+  - unfold rd_s. destruct (get_s 1 bs) as [[? ?]|]; discriminate.
+  - unfold rd_s. destruct (get_s 2 bs) as [[? ?]|]; discriminate.
+  - unfold rd_s. destruct (get_s 4 bs) as [[? ?]|]; discriminate.
+  - unfold rd_s. destruct (get_s 8 bs) as [[? ?]|]; discriminate.
+  - unfold rd_u. destruct (get_be 8 bs) as [[? ?]|]; discriminate.
+  - unfold rd_str. destruct (get_s 4 bs) as [[n r]|]; [|discriminate].
+    destruct (n <? 0); [discriminate|]. destruct (lenZ r <? n); discriminate.
+  - unfold rd_str. destruct (get_s 4 bs) as [[n r]|]; [|discriminate].
+    destruct (n <? 0); [discriminate|]. destruct (lenZ r <? n); discriminate.
+  - unfold rd_s. destruct (get_s 4 bs) as [[? ?]|]; discriminate.
+  - destruct (find_struct e name) as [s|]; [|discriminate].
+    pose proof (fr_loop_nofuel (fr_val fuel e) e s (fr_val_consumes e fuel) (S (length bs)) (new_fields s, []) bs
+                  ltac:(lia) ltac:(intros t bs' Hb; apply IH; lia)) as H.
+    destruct (fr_loop (fr_val fuel e) e s (S (length bs)) (new_fields s, []) bs) as [[fs r]|x]; [discriminate|]. congruence.
+  - destruct (rd_list_begin bs) as [[n r0]|x] eqn:E.
+    + pose proof (rd_list_begin_consumes _ _ _ E).
+      pose proof (frep_nofuel (fr_val fuel e t) (fr_val_consumes e fuel t) (S (length r0)) n r0
+                    ltac:(lia) ltac:(intros bs' Hb; apply IH; lia)) as H0.
+      destruct (frep (fr_val fuel e t) (S (length r0)) n r0) as [[l r1]|y]; [discriminate|]. congruence.
+    + unfold rd_list_begin in E. destruct bs as [|b bs]; [congruence|].
+      destruct (get_s 4 bs) as [[n r0]|]; [|congruence]. destruct (n <? 0); congruence.
+  - destruct (rd_list_begin bs) as [[n r0]|x] eqn:E.
+    + pose proof (rd_list_begin_consumes _ _ _ E).
+      pose proof (frep_nofuel (fr_val fuel e t) (fr_val_consumes e fuel t) (S (length r0)) n r0
+                    ltac:(lia) ltac:(intros bs' Hb; apply IH; lia)) as H0.
+      destruct (frep (fr_val fuel e t) (S (length r0)) n r0) as [[l r1]|y]; [discriminate|]. congruence.
+    + unfold rd_list_begin in E. destruct bs as [|b bs]; [congruence|].
+      destruct (get_s 4 bs) as [[n r0]|]; [|congruence]. destruct (n <? 0); congruence.
+  - destruct (rd_map_begin bs) as [[n r0]|x] eqn:E.
+    + pose proof (rd_map_begin_consumes _ _ _ E).
+      assert (Hpair : forall bs', (length bs' <= length r0)%nat ->
+                fpair (fr_val fuel e t1) (fr_val fuel e t2) bs' <> FErr FFuel).
+      { intros bs' Hb. unfold fpair.
+        pose proof (IH t1 bs' ltac:(lia)) as H1.
+        destruct (fr_val fuel e t1 bs') as [[a r1]|x] eqn:E1; [|congruence].
+        pose proof (fr_val_consumes e fuel t1 _ _ _ E1).
+        pose proof (IH t2 r1 ltac:(lia)) as H2.
+        destruct (fr_val fuel e t2 r1) as [[b r2]|x]; [discriminate | congruence]. }
+      pose proof (frep_nofuel _ (fpair_consumes _ _ (fr_val_consumes e fuel t1) (fr_val_consumes e fuel t2))
+                    (S (length r0)) n r0 ltac:(lia) Hpair) as H0.
+      destruct (frep (fpair (fr_val fuel e t1) (fr_val fuel e t2)) (S (length r0)) n r0) as [[l r1]|y]; [discriminate|]. congruence.
+    + unfold rd_map_begin in E. destruct bs as [|b [|b2 bs]]; try congruence.
+      destruct (get_s 4 bs) as [[n r0]|]; [|congruence]. destruct (n <? 0); congruence.
+Qed.
+
+(* fast_read always answers: an object, or one of the error classes the generated code can produce
+   (the model's own out-of-fuel answer is never given) *)
+Theorem fast_read_total e s init bs : fast_read e s init bs <> FErr FFuel.
+Proof.
+  unfold fast_read. destruct init; try discriminate.
+  pose proof (fr_loop_nofuel (fr_val (S (length bs)) e) e s (fr_val_consumes e (S (length bs))) (S (length bs)) (fs, []) bs
+                ltac:(lia) ltac:(intros t bs' Hb; apply fr_val_nofuel; lia)) as H.
+  destruct (fr_loop (fr_val (S (length bs)) e) e s (S (length bs)) (fs, []) bs) as [[fs' r]|x]; [discriminate|]. congruence.
+Qed.
+
+(* ------------------------------------------------------------------ truncated encodings *)
+
+(* [p] reads the element [x] (encoded by [encb], at least one byte) completely when it is at most K bytes
+   long, and refuses every proper prefix of at most K bytes as too short *)
+Definition elem_ok {A B} (K : nat) (p : bytes -> fres (A * bytes)) (encb : B -> bytes) (x : B) : Prop :=
+  ((length (encb x) <= K)%nat -> exists v, forall rest, p (encb x ++ rest) = FOk (v, rest)) /\
+  (forall m, (m < length (encb x))%nat -> (m <= K)%nat -> p (firstn m (encb x)) = FErr FShort) /\
+  (1 <= length (encb x))%nat.
+
+Lemma elem_ok_mono {A B} K K' (p : bytes -> fres (A * bytes)) (encb : B -> bytes) x :
+  (K' <= K)%nat -> elem_ok K p encb x -> elem_ok K' p encb x.
+Proof.
+  intros Hle (H1 & H2 & H3). split; [|split]; [intro H; apply H1; lia | intros m Hm Hk; apply H2; lia | exact H3].
+Qed.
+
+Lemma firstn_app_lt {A} (a b : list A) m : (m < length a)%nat -> firstn m (a ++ b) = firstn m a.
+Proof. intro H. rewrite firstn_app. replace (m - length a)%nat with O by lia. cbn [firstn]. apply app_nil_r. Qed.
+
+Lemma firstn_app_ge {A} (a b : list A) m : (length a <= m)%nat -> firstn m (a ++ b) = a ++ firstn (m - length a) b.
+Proof. intro H. rewrite firstn_app, firstn_all2 by lia. reflexivity. Qed.
+
+Lemma frep_prefix {A B} (p : bytes -> fres (A * bytes)) (encb : B -> bytes) l : forall fuel k,
+  (k < fuel)%nat -> Forall (elem_ok k p encb) l ->
+  (k < length (flat_map encb l))%nat ->
+  frep p fuel (lenZ l) (firstn k (flat_map encb l)) = FErr FShort.
+Proof.
+  induction l as [|x l IH]; intros fuel k Hf Hall Hk; [cbn in Hk; lia|].
+  inversion Hall as [|? ? (Hfull & Hpre & Hne) Hrest]; subst.
+  destruct fuel; [lia|]. cbn [frep flat_map].
+  rewrite lenZ_cons. destruct (Z.leb_spec (1 + lenZ l) 0); [pose proof (lenZ_nonneg l); lia|].
+  replace (1 + lenZ l - 1) with (lenZ l) by lia.
+  destruct (Nat.lt_ge_cases k (length (encb x))) as [Hlt|Hge].
+  - rewrite firstn_app_lt by assumption. rewrite Hpre by (assumption || lia). reflexivity.
+  - rewrite firstn_app_ge by assumption. destruct (Hfull Hge) as [v Hv]. rewrite Hv.
+    cbn [flat_map] in Hk. rewrite app_length in Hk.
+    rewrite IH; [reflexivity | lia | | lia].
+    revert Hrest. apply Forall_impl. intro y. apply elem_ok_mono. lia.
+Qed.
+
+Lemma fpair_elem_ok {A B} K (p : bytes -> fres (A * bytes)) (q : bytes -> fres (B * bytes)) (k x : wval) :
+  elem_ok K p enc k -> elem_ok K q enc x ->
+  elem_ok K (fpair p q) (fun kv : wval * wval => enc (fst kv) ++ enc (snd kv)) (k, x).
+Proof.
+  intros (Hk & Hpk & Hnk) (Hx & Hpx & Hnx). unfold elem_ok. cbn [fst snd]. split; [|split].
+  - rewrite app_length. intro Hl. destruct (Hk ltac:(lia)) as [vk Hvk]. destruct (Hx ltac:(lia)) as [vx Hvx].
+    exists (vk, vx). intro rest. unfold fpair. rewrite <- app_assoc, Hvk, Hvx. reflexivity.
+  - intros m Hm HmK. unfold fpair. rewrite app_length in Hm.
+    destruct (Nat.lt_ge_cases m (length (enc k))) as [Hlt|Hge].
+    + rewrite firstn_app_lt by assumption. rewrite Hpk by assumption. reflexivity.
+    + rewrite firstn_app_ge by assumption. destruct (Hk ltac:(lia)) as [vk Hvk]. rewrite Hvk.
+      assert (Hm' : (m - length (enc k) < length (enc x))%nat) by lia.
+      rewrite (Hpx _ Hm' ltac:(lia)). reflexivity.
+  - rewrite app_length. lia.
+Qed.
+
+Lemma foldM_cons_ok {A S} (f : S -> A -> result S) x l st st' :
+  foldM f (x :: l) st = Ok st' -> exists st1, f st x = Ok st1 /\ foldM f l st1 = Ok st'.
+Proof. cbn [foldM]. destruct (f st x) as [st1|]; [|discriminate]. intro H. exists st1. auto. Qed.
+
+Lemma mapM_ok_Forall {A B} (f : A -> result B) l ys : mapM f l = Ok ys -> Forall (fun x => exists y, f x = Ok y) l.
+Proof.
+  revert ys. induction l as [|x l IH]; intros ys H; [constructor|]. cbn [mapM] in H.
+  destruct (f x) as [y|] eqn:E; [|discriminate]. destruct (mapM f l) as [ys'|] eqn:E2; [|discriminate].
+  constructor; [eauto | eapply IH; reflexivity].
+Qed.
+
+Section PrefixLoop.
+  Variable e : env.
+  Variable s : sschema.
+  Variable rv : ty -> bytes -> fres (value * bytes).
+  Hypothesis Hnd : NoDup (map f_id (s_fields s)).
+
+  (* a field the reader knows, with the wire type of its IDL type, whose payload [rv] reads completely and
+     refuses when cut short (up to K bytes) *)
+  Definition known_ok (K : nat) (f : wfield) : Prop :=
+    in_srange 2 (snd (fst f)) /\
+    exists fld, find_field (snd (fst f)) (s_fields s) = Some fld /\ fst (fst f) = spec_ttype (f_ty fld) /\
+                elem_ok K (rv (f_ty fld)) enc (snd f).
+
+  Lemma known_ok_mono K K' f : (K' <= K)%nat -> known_ok K f -> known_ok K' f.
+  Proof.
+    intros Hle (H1 & fld & H2 & H3 & H4). split; [exact H1|]. exists fld. repeat split; try assumption.
+    - intro H. apply H4. lia.
+    - intros m Hm Hk. apply H4; lia.
+    - apply H4.
+  Qed.
+
+  Lemma fr_loop_prefix wfs : forall lf st k,
+    (k < lf)%nat -> ((3 <= k)%nat -> Forall (known_ok (k - 3)) wfs) -> (k < length (enc_fields_go wfs))%nat ->
+    fr_loop rv e s lf st (firstn k (enc_fields_go wfs)) = FErr FShort.
+  Proof.
+    induction wfs as [|[[tt id] x] wfs IH]; intros lf st k Hlf Hall Hk.
+    - cbn in Hk. assert (k = O) by lia. subst k. destruct lf; [lia|]. reflexivity.
+    - destruct lf; [lia|].
+      rewrite enc_fields_go_cons in *. rewrite put_be_1 in *. cbn [app] in *.
+      destruct k as [|k]; [reflexivity|]. cbn [firstn fr_loop].
+      pose proof (code_range tt) as Hcr.
+      assert (Ecode : Z_of_byte (byte_of_Z (code tt)) = code tt) by apply Z_of_byte_code. rewrite Ecode.
+      destruct (Z.eqb_spec (code tt) 0) as [E0|_]; [lia|].
+      cbn [length] in Hk. rewrite !app_length, put_be_length in Hk.
+      destruct (Nat.lt_ge_cases k 2) as [Hk2|Hk2].
+      + rewrite firstn_app_lt by (rewrite put_be_length; lia).
+        assert (E : get_s 2 (firstn k (put_be 2 id)) = None) by (apply get_s_None; rewrite firstn_length, put_be_length; lia).
+        rewrite E. reflexivity.
+      + specialize (Hall ltac:(lia)).
+        inversion Hall as [|? ? (Hid & fld & Hf & Htt & Hfull & Hpre & Hne) Hrest]; subst. cbn [fst snd] in *. subst tt.
+        rewrite firstn_app_ge by (rewrite put_be_length; lia). rewrite put_be_length.
+        rewrite get_s_put by (auto; lia).
+        rewrite find_case_spec, Hf, wire_type_spec, Z.eqb_refl by assumption.
+        destruct (Nat.lt_ge_cases (k - 2) (length (enc x))) as [Hlt|Hge].
+        * rewrite firstn_app_lt by assumption. rewrite Hpre by (assumption || lia). reflexivity.
+        * rewrite firstn_app_ge by assumption. destruct (Hfull ltac:(lia)) as [v Hv]. rewrite Hv.
+          apply IH; [lia | | lia].
+          intros _. revert Hrest. apply Forall_impl. intro y. apply known_ok_mono. lia.
+  Qed.
+End PrefixLoop.
+
+Section PrefixProof.
+  Variable e : env.
+  Hypothesis Henv : wf_env e = true.
+
+  Definition pre_ok (w : wval) : Prop :=
+    forall fuel t v, wf w -> (depth w <= default_recursion_depth)%nat ->
+                     conforms e t w = true -> from_w e t w = Ok v ->
+                     forall m, (m < length (enc w))%nat -> (m < fuel)%nat ->
+                     fr_val fuel e t (firstn m (enc w)) = FErr FShort.
+
+  Lemma full_read w fuel t v :
+    wf w -> (depth w <= fuel)%nat -> (depth w <= default_recursion_depth)%nat ->
+    conforms e t w = true -> from_w e t w = Ok v ->
+    forall rest, fr_val fuel e t (enc w ++ rest) = FOk (v, rest).
+  Proof.
+    intros Hwf Hfu Hd Hc Hr. pose proof (fr_val_from_w e Henv w fuel t Hwf Hfu Hd (conforms_wtype _ _ _ Hc)) as H.
+    rewrite Hr in H. exact H.
+  Qed.
+
+  Lemma elem_ok_of w fuel t v K :
+    pre_ok w -> wf w -> (depth w <= default_recursion_depth)%nat ->
+    conforms e t w = true -> from_w e t w = Ok v -> (K < fuel)%nat -> elem_ok K (fr_val fuel e t) enc w.
+  Proof.
+    intros Hp Hwf Hd Hc Hr HK. split; [|split].
+    - intro Hl. exists v. apply full_read; try assumption.
+      pose proof (depth_le_size w). rewrite <- enc_length in *. lia.
+    - intros m Hm HmK. apply (Hp fuel t v); try assumption. lia.
+    - pose proof (enc_nonempty w). unfold lenZ in *. lia.
+  Qed.
+
+  Lemma known_ok_fields s fs fuel K st0 st' :
+    (K < fuel)%nat ->
+    Forall (fun f : ttype * Z * wval => pre_ok (snd f)) fs ->
+    Forall (fun f : ttype * Z * wval => wtype (snd f) = fst (fst f) /\ in_srange 2 (snd (fst f)) /\ wf (snd f)) fs ->
+    (depth_struct_go fs <= default_recursion_depth)%nat ->
+    forallb (fun wf : ttype * Z * wval =>
+               match find_field (snd (fst wf)) (s_fields s) with
+               | Some f => ttype_eqb (fst (fst wf)) (spec_ttype (f_ty f)) && conforms e (f_ty f) (snd wf)
+               | None => false end) fs = true ->
+    foldM (read_step e s) fs st0 = Ok st' ->
+    Forall (known_ok s (fr_val fuel e) K) fs.
+  Proof.
+    intro HK. revert st0 st'. induction fs as [|[[tt id] x] fs IHfs]; intros st0 st' H Hwf Hd Hc Hfold; [constructor|].
+    inversion H as [|? ? Hx Hrest]; subst. inversion Hwf as [|? ? (Hw1 & Hw2 & Hw3) Hwrest]; subst.
+    cbn [forallb fst snd] in Hc. apply andb_true_iff in Hc. destruct Hc as [Hc1 Hc2].
+    destruct (find_field id (s_fields s)) as [fld|] eqn:Hf; [|discriminate].
+    apply andb_true_iff in Hc1. destruct Hc1 as [Htt Hcx]. apply ttype_eqb_eq in Htt.
+    destruct (foldM_cons_ok _ _ _ _ _ Hfold) as (st1 & Hstep & Hfold').
+    unfold read_step in Hstep. cbn [fst snd] in Hstep. rewrite Hf in Hstep.
+    rewrite Htt, ttype_of_spec, ttype_eqb_refl in Hstep.
+    destruct (from_w e (f_ty fld) x) as [vx|] eqn:Hvx; [|discriminate].
+    cbn [depth_struct_go] in Hd. fold depth_struct_go in Hd.
+    constructor.
+    - unfold known_ok. cbn [fst snd]. split; [assumption|]. exists fld. split; [assumption|]. split; [assumption|].
+      apply (elem_ok_of x fuel (f_ty fld) vx); try assumption; lia.
+    - apply (IHfs st1 st' Hrest Hwrest ltac:(lia) Hc2 Hfold').
+  Qed.
+
+  Lemma header_prefix5 (b : byte) (hd body : bytes) m :
+    length hd = 4%nat -> (m < 5)%nat -> rd_list_begin (firstn m (b :: hd ++ body)) = FErr FShort.
+  Proof.
+    intros Hl Hm. destruct m as [|m]; [reflexivity|]. cbn [firstn rd_list_begin].
+    rewrite firstn_app_lt by lia.
+    assert (E : get_s 4 (firstn m hd) = None) by (apply get_s_None; rewrite firstn_length; lia).
+    rewrite E. reflexivity.
+  Qed.
+
+  Lemma header_prefix6 (b1 b2 : byte) (hd body : bytes) m :
+    length hd = 4%nat -> (m < 6)%nat -> rd_map_begin (firstn m (b1 :: b2 :: hd ++ body)) = FErr FShort.
+  Proof.
+    intros Hl Hm. destruct m as [|[|m]]; [reflexivity | reflexivity |]. cbn [firstn rd_map_begin].
+    rewrite firstn_app_lt by lia.
+    assert (E : get_s 4 (firstn m hd) = None) by (apply get_s_None; rewrite firstn_length; lia).
+    rewrite E. reflexivity.
+  Qed.
+
+  Lemma listlike_prefix fuel a et (l : list wval) m :
+    ((5 <= m)%nat -> Forall (elem_ok (m - 5) (fr_val fuel e a) enc) l) -> in_srange 4 (Z.of_nat (length l)) ->
+    (m < length (put_be 1 (code et) ++ put_be 4 (Z.of_nat (length l)) ++ enc_list_go l))%nat ->
+    match rd_list_begin (firstn m (put_be 1 (code et) ++ put_be 4 (Z.of_nat (length l)) ++ enc_list_go l)) with
+    | FErr x => FErr x
+    | FOk (n, r) =>
+        match frep (fr_val fuel e a) (S (length r)) n r with
+        | FErr x => FErr x
+        | FOk (xs, r') => FOk (VList xs, r')
+        end
+    end = FErr FShort.
+  Proof.
+    intros Hel Hlen Hm. rewrite put_be_1 in *. cbn [app] in *.
+    destruct (Nat.lt_ge_cases m 5) as [Hlt|Hge].
+    - rewrite header_prefix5 by (rewrite ?put_be_length; auto). reflexivity.
+    - specialize (Hel Hge). cbn [length] in Hm. rewrite app_length, put_be_length in Hm.
+      destruct m as [|m]; [lia|]. cbn [firstn]. rewrite firstn_app_ge by (rewrite put_be_length; lia). rewrite put_be_length.
+      change (byte_of_Z (code et) :: put_be 4 (Z.of_nat (length l)) ++ firstn (m - 4) (enc_list_go l))
+        with ([byte_of_Z (code et)] ++ put_be 4 (Z.of_nat (length l)) ++ firstn (m - 4) (enc_list_go l)).
+      rewrite <- put_be_1, rd_list_begin_enc by (assumption || lia).
+      rewrite enc_list_go_flat in *. fold (lenZ l).
+      replace (S m - 5)%nat with (m - 4)%nat in Hel by lia.
+      rewrite frep_prefix; [reflexivity | rewrite firstn_length; lia | assumption | lia].
+  Qed.
+
+  Theorem fr_val_prefix : forall w, pre_ok w.
+  Proof.
+    intro w. induction w using wval_ind2; intros fuel t v Hwf Hd Hc Hr m Hm Hmf;
+      (destruct fuel as [|fuel]; [lia|]).
+    - (* bool *) destruct t; try discriminate. cbn in Hm. assert (m = O) by lia. subst. reflexivity.
+    - (* byte *) destruct t; try discriminate. cbn [enc] in *. rewrite put_be_length in Hm. cbn [fr_val]. unfold rd_s.
+      assert (E : get_s 1 (firstn m (put_be 1 z)) = None) by (apply get_s_None; rewrite firstn_length, put_be_length; lia).
+      rewrite E. reflexivity.
+    - (* double *) destruct t; try discriminate. cbn [enc] in *. rewrite put_be_length in Hm. cbn [fr_val]. unfold rd_u.
+      assert (E : get_be 8 (firstn m (put_be 8 z)) = None) by (apply get_be_None; rewrite firstn_length, put_be_length; lia).
+      rewrite E. reflexivity.
+    - (* i16 *) destruct t; try discriminate. cbn [enc] in *. rewrite put_be_length in Hm. cbn [fr_val]. unfold rd_s.
+      assert (E : get_s 2 (firstn m (put_be 2 z)) = None) by (apply get_s_None; rewrite firstn_length, put_be_length; lia).
+      rewrite E. reflexivity.
+    - (* i32 *) destruct t; try discriminate; cbn [enc] in *; rewrite put_be_length in Hm; cbn [fr_val]; unfold rd_s;
+        assert (E : get_s 4 (firstn m (put_be 4 z)) = None) by (apply get_s_None; rewrite firstn_length, put_be_length; lia);
+        rewrite E; reflexivity.
+    - (* i64 *) destruct t; try discriminate. cbn [enc] in *. rewrite put_be_length in Hm. cbn [fr_val]. unfold rd_s.
+      assert (E : get_s 8 (firstn m (put_be 8 z)) = None) by (apply get_s_None; rewrite firstn_length, put_be_length; lia).
+      rewrite E. reflexivity.
+    - (* string *)
+      assert (Hs : rd_str (firstn m (enc (WStr s))) = FErr FShort).
+      { cbn [enc] in *. rewrite app_length, put_be_length in Hm. unfold rd_str.
+        destruct (Nat.lt_ge_cases m 4) as [Hlt|Hge].
+        - rewrite firstn_app_lt by (rewrite put_be_length; lia).
+          assert (E : get_s 4 (firstn m (put_be 4 (Z.of_nat (length s)))) = None)
+            by (apply get_s_None; rewrite firstn_length, put_be_length; lia).
+          rewrite E. reflexivity.
+        - rewrite firstn_app_ge by (rewrite put_be_length; lia). rewrite put_be_length.
+          rewrite get_s_put by (auto; lia || exact Hwf).
+          destruct (Z.ltb_spec (Z.of_nat (length s)) 0); [lia|].
+          unfold lenZ. rewrite firstn_length.
+          destruct (Z.ltb_spec (Z.of_nat (Nat.min (m - 4) (length s))) (Z.of_nat (length s))); [reflexivity | lia]. }
+      destruct t; try discriminate; cbn [fr_val]; rewrite Hs; reflexivity.
+    - (* struct *)
+      destruct t; try discriminate. rewrite from_w_struct in Hr. cbn [conforms] in Hc. cbn [fr_val].
+      destruct (find_struct e name) as [s|] eqn:Hs; [|discriminate].
+      apply wf_struct_iff in Hwf.
+      assert (Hnd : NoDup (map f_id (s_fields s))) by (apply wf_struct_nodup; apply (wf_env_struct e name); assumption).
+      destruct (foldM (read_step e s) fs (new_fields s, [])) as [st'|] eqn:Hfold; [|discriminate].
+      rewrite enc_struct_unfold in *.
+      change (depth (WStruct fs)) with (S (depth_struct_go fs)) in Hd.
+      rewrite (fr_loop_prefix e s (fr_val fuel e) Hnd fs (S (length (firstn m (enc_fields_go fs)))) (new_fields s, []) m); try assumption.
+      + reflexivity.
+      + rewrite firstn_length. lia.
+      + intro H3. apply (known_ok_fields s fs fuel (m - 3) (new_fields s, []) st'); try assumption; lia.
+    - (* map *)
+      destruct t; try discriminate. apply wf_map_iff in Hwf. destruct Hwf as [Hlen Hall].
+      cbn [conforms] in Hc. apply andb_true_iff in Hc. destruct Hc as [Hc0 Hcall]. apply andb_true_iff in Hc0. destruct Hc0 as [Hck Hcv].
+      cbn [from_w] in Hr.
+      destruct ((ttype_eqb kt (ttype_of e t1) && ttype_eqb vt (ttype_of e t2)) || (length kvs =? 0)%nat); [|discriminate].
+      set (g := fun kv : wval * wval => bind (from_w e t1 (fst kv)) (fun k => bind (from_w e t2 (snd kv)) (fun x => Ok (k, x)))) in *.
+      destruct (mapM g kvs) as [xs|] eqn:Hmap; [|discriminate]. apply mapM_ok_Forall in Hmap.
+      rewrite enc_map_unfold in *. cbn [fr_val]. rewrite !put_be_1 in *. cbn [app] in *.
+      destruct (Nat.lt_ge_cases m 6) as [Hlt|Hge].
+      + rewrite header_prefix6 by (rewrite ?put_be_length; auto). reflexivity.
+      + assert (Hel : Forall (elem_ok (m - 6) (fpair (fr_val fuel e t1) (fr_val fuel e t2)) (fun kv : wval * wval => enc (fst kv) ++ enc (snd kv))) kvs).
+        { rewrite Forall_forall in *. rewrite forallb_forall in Hcall. intros [k x] Hkv.
+          destruct (H _ Hkv) as [IHk IHx]. destruct (Hall _ Hkv) as (_ & _ & Hwk & Hwx). cbn [fst snd] in *.
+          destruct (Hmap _ Hkv) as [y Hy]. unfold g in Hy. cbn [fst snd] in Hy.
+          destruct (from_w e t1 k) as [vk|] eqn:E1; [|discriminate]. destruct (from_w e t2 x) as [vx|] eqn:E2; [|discriminate].
+          specialize (Hcall _ Hkv). cbn [fst snd] in Hcall. apply andb_true_iff in Hcall. destruct Hcall as [Hc1 Hc2].
+          pose proof (depth_map_le _ _ Hkv) as Hdp. cbn [fst snd] in Hdp.
+          change (depth (WMap kt vt kvs)) with (S (depth_map_go kvs)) in Hd.
+          apply fpair_elem_ok; [apply (elem_ok_of k fuel t1 vk) | apply (elem_ok_of x fuel t2 vx)]; try assumption; lia. }
+        cbn [length] in Hm. rewrite app_length, put_be_length in Hm.
+        destruct m as [|[|m]]; try lia. cbn [firstn]. rewrite firstn_app_ge by (rewrite put_be_length; lia). rewrite put_be_length.
+        change (byte_of_Z (code kt) :: byte_of_Z (code vt) :: put_be 4 (Z.of_nat (length kvs)) ++ firstn (m - 4) (enc_map_go kvs))
+          with ([byte_of_Z (code kt)] ++ [byte_of_Z (code vt)] ++ put_be 4 (Z.of_nat (length kvs)) ++ firstn (m - 4) (enc_map_go kvs)).
+        rewrite <- !put_be_1, rd_map_begin_enc by (assumption || lia).
+        rewrite enc_map_go_flat in *. fold (lenZ kvs).
+        replace (S (S m) - 6)%nat with (m - 4)%nat in Hel by lia.
+        rewrite frep_prefix; [reflexivity | rewrite firstn_length; lia | assumption | lia].
+    - (* set *)
+      destruct t; try discriminate. apply wf_set_iff in Hwf. destruct Hwf as [Hlen Hall].
+      cbn [conforms] in Hc. apply andb_true_iff in Hc. destruct Hc as [Hc0 Hcall].
+      cbn [from_w] in Hr. destruct (ttype_eqb et (ttype_of e t) || (length l =? 0)%nat); [|discriminate].
+      destruct (mapM (from_w e t) l) as [xs|] eqn:Hmap; [|discriminate]. apply mapM_ok_Forall in Hmap.
+      rewrite enc_set_unfold in *. cbn [fr_val]. apply listlike_prefix; try assumption.
+      intro H5. rewrite Forall_forall in *. rewrite forallb_forall in Hcall. intros x Hx.
+      destruct (Hall _ Hx) as [_ Hwx]. destruct (Hmap _ Hx) as [y Hy].
+      pose proof (depth_list_le _ _ Hx) as Hdp. change (depth (WSet et l)) with (S (depth_list_go l)) in Hd.
+      apply (elem_ok_of x fuel t y); try assumption; try lia; [apply H | apply Hcall]; assumption.
+    - (* list *)
+      destruct t; try discriminate. apply wf_list_iff in Hwf. destruct Hwf as [Hlen Hall].
+      cbn [conforms] in Hc. apply andb_true_iff in Hc. destruct Hc as [Hc0 Hcall].
+      cbn [from_w] in Hr. destruct (ttype_eqb et (ttype_of e t) || (length l =? 0)%nat); [|discriminate].
+      destruct (mapM (from_w e t) l) as [xs|] eqn:Hmap; [|discriminate]. apply mapM_ok_Forall in Hmap.
+      rewrite enc_list_unfold in *. cbn [fr_val]. apply listlike_prefix; try assumption.
+      intro H5. rewrite Forall_forall in *. rewrite forallb_forall in Hcall. intros x Hx.
+      destruct (Hall _ Hx) as [_ Hwx]. destruct (Hmap _ Hx) as [y Hy].
+      pose proof (depth_list_le _ _ Hx) as Hdp. change (depth (WList et l)) with (S (depth_list_go l)) in Hd.
+      apply (elem_ok_of x fuel t y); try assumption; try lia; [apply H | apply Hcall]; assumption.
+  Qed.
+End PrefixProof.
+
+(* every proper prefix of an encoding of a value of the struct itself (all fields known, typed as the schema
+   says, readable) is refused as too short: an error of class INVALID_DATA, not one of the panic classes *)
+Theorem fast_read_prefix_error e s fs0 wfs v m :
+  wf_env e = true -> find_struct e (s_name s) = Some s -> wf (WStruct wfs) ->
+  (depth (WStruct wfs) <= default_recursion_depth)%nat ->
+  conforms e (TRef (s_name s)) (WStruct wfs) = true ->
+  from_wire e s (VStruct fs0) (WStruct wfs) = Ok v ->
+  (m < length (enc (WStruct wfs)))%nat ->
+  fast_read e s (VStruct fs0) (firstn m (enc (WStruct wfs))) = FErr FShort.
+Proof.
+  intros Henv Hs Hwf Hd Hc Hr Hm. unfold fast_read.
+  assert (Hnd : NoDup (map f_id (s_fields s))) by (apply wf_struct_nodup; apply (wf_env_struct e (s_name s)); assumption).
+  cbn [conforms] in Hc. rewrite Hs in Hc. unfold from_wire in Hr.
+  destruct (foldM (read_step e s) wfs (fs0, [])) as [st'|] eqn:Hfold; [|discriminate].
+  apply wf_struct_iff in Hwf. rewrite enc_struct_unfold in *.
+  change (depth (WStruct wfs)) with (S (depth_struct_go wfs)) in Hd.
+  rewrite (fr_loop_prefix e s _ Hnd wfs (S (length (firstn m (enc_fields_go wfs)))) (fs0, []) m); try assumption.
+  - reflexivity.
+  - rewrite firstn_length. lia.
+  - intro H3. apply (known_ok_fields e Henv s wfs _ (m - 3) (fs0, []) st'); try assumption.
+    + rewrite firstn_length. lia.
+    + apply Forall_forall. intros f _. apply fr_val_prefix. assumption.
+    + lia.
+Qed.
+
 (* ------------------------------------------------------------------ the two recorded defects (gopkg Skip), exhibited on the model *)
 
 Module Witness.
